@@ -18,7 +18,8 @@ def valid(inp):
 
 
 def classify_cluster(inp):
-    """a request that needs a backend held by another node takes the distributed code path"""
+    """a request that needs a backend held by another node takes the distributed code path
+    (was the class of known finding D22 until the 14 fix: commits 4ad91fb..add3332; kept for the histogram)"""
     try:
         mine = set(inp["cluster"][0] or [])
         listed = None
@@ -46,7 +47,7 @@ PROP = Prop(
     streams=[Stream("assign", "c18assign", n_quick=150, n_thorough=3000, valid=valid,
                     what="Nodes.redistribute/updateBackends/IsOurBackend on real Nodes and Peer objects"),
              Stream("cluster", "qe", n_quick=200, n_thorough=2000, shards_thorough=4, valid=valid_cluster,
-                    shrinker=shrink_request, classify=classify_cluster, extra_args=["--profile", "c18"],
+                    shrinker=shrink_request, extra_args=["--profile", "c18"],
                     what="2-3 in-process lmd nodes connected through their real HTTP /query endpoint, request sent to node 0; "
                          "expected = the query-engine model's answer for a single lmd holding all backends")],
     trusted_base=[
